@@ -52,6 +52,33 @@ Fixpoint lookup (n : string) (kv : list (string * json)) : option json :=
 
 Definition keys (kv : list (string * json)) : list string := map fst kv.
 
+(* encoding/json resolves a document key to a struct field by exact name first, otherwise
+   case-insensitively.  Model: ASCII case folding (keys containing U+017F / U+212A, which
+   Unicode folding also sends to s / k, are outside the model).  [ns] = the json names of the
+   struct's fields in declaration order. *)
+Definition lower (c : ascii) : ascii :=
+  let n := N_of_ascii c in
+  if (N.leb 65 n && N.leb n 90)%bool then ascii_of_N (n + 32) else c.
+Fixpoint fold_case (s : string) : string :=
+  match s with EmptyString => EmptyString | String c r => String (lower c) (fold_case r) end.
+Definition resolve (ns : list string) (k : string) : option string :=
+  if existsb (String.eqb k) ns then Some k
+  else find (fun m => String.eqb (fold_case m) (fold_case k)) ns.
+
+(* the value the field named n ends up with: the LAST document entry whose key resolves to n *)
+Fixpoint lookup_f (ns : list string) (n : string) (kv : list (string * json)) : option json :=
+  match kv with
+  | [] => None
+  | (k, j) :: r =>
+      match lookup_f ns n r with
+      | Some x => Some x
+      | None => match resolve ns k with
+                | Some m => if String.eqb m n then Some j else None
+                | None => None
+                end
+      end
+  end.
+
 (* normal form of a decimal *)
 Definition num_normb (m k : Z) : bool :=
   (0 <=? k) && ((k =? 0) || negb (m mod 10 =? 0)).
